@@ -188,7 +188,7 @@ pub fn dispatch_choices() -> Vec<(&'static str, u8)> {
     }
 }
 
-pub const RULE: &str = "every Edwards scalar-multiplication entry point (variable-base in all operator forms, mul_base, clamped variants, the shipped table, tables of 5 radices created from arbitrary points and converted between radices, vartime double-base, constant-time / vartime / optional multiscalar, precomputed mixed multiscalar with fewer static scalars and None inputs) executed once per implementation the run-time dispatcher can select (forced through the hook); points from a pool with known discrete logs (with and without 8-torsion) and arbitrary curve points; scalars window-structured (radix/NAF corners), canonical everywhere and unreduced < 2^255 where documented; n in {0,1,2,3,8,63,64,65,189,190,191,499,500,501,799,800,801,1000}; the signed-digit recoders themselves are checked by a validity predicate (digits denote the integer, documented ranges/sparsity). Non-trivial = unreduced or special-pattern scalar, torsion-carrying point, n on a regime boundary, a None input, a table of an arbitrary point, or a clamped variant";
+pub const RULE: &str = "every Edwards scalar-multiplication entry point (variable-base in all operator forms, mul_base, clamped variants, the Montgomery ladder (scalar and bit-string forms), the Ristretto wrappers, the shipped table, tables of 5 radices created from arbitrary points and converted between radices, vartime double-base, constant-time / vartime / optional multiscalar, precomputed mixed multiscalar with fewer static scalars and None inputs) executed once per implementation the run-time dispatcher can select (forced through the hook); points from a pool with known discrete logs (with and without 8-torsion) and arbitrary curve points; scalars window-structured (radix/NAF corners), canonical everywhere and unreduced < 2^255 where documented; n in {0,1,2,3,8,63,64,65,189,190,191,499,500,501,799,800,801,1000}; the signed-digit recoders themselves are checked by a validity predicate (digits denote the integer, documented ranges/sparsity). Non-trivial = unreduced or special-pattern scalar, torsion-carrying point, n on a regime boundary, a None input, a table of an arbitrary point, or a clamped variant";
 
 pub fn checks(tier: Tier) -> Vec<Check> {
     let tables = cfg!(feature = "tables");
@@ -214,6 +214,17 @@ pub fn checks(tier: Tier) -> Vec<Check> {
             exec: forced_exec(kind),
             oracle: Box::new(crate::mops::oracle),
             classify: Box::new(classify),
+            rule: RULE,
+            exhaustive: false,
+            enumerate: None,
+        });
+        v.push(Check {
+            name: format!("C04.wrappers[{}]", label),
+            strategy: prop_oneof![super::c06::mul_wrappers(tables), super::c07::ladder_ops()].boxed(),
+            cases: tier.scale(1_500, 20),
+            exec: forced_exec(kind),
+            oracle: Box::new(crate::mops::oracle),
+            classify: Box::new(|r: &Req, _: &Resp| if r.op.starts_with("mt.") { vec!["montgomery-ladder"] } else { vec!["ristretto-wrapper"] }),
             rule: RULE,
             exhaustive: false,
             enumerate: None,
